@@ -13,12 +13,19 @@ import (
 	"slices"
 	"sort"
 	"strconv"
+	"strings"
 	"time"
 
+	"github.com/AdguardTeam/AdGuardDNS/internal/access"
 	"github.com/AdguardTeam/AdGuardDNS/internal/agd"
 	"github.com/AdguardTeam/AdGuardDNS/internal/agdpasswd"
+	"github.com/AdguardTeam/AdGuardDNS/internal/agdtime"
 	"github.com/AdguardTeam/AdGuardDNS/internal/backendpb"
+	"github.com/AdguardTeam/AdGuardDNS/internal/dnsmsg"
+	"github.com/AdguardTeam/AdGuardDNS/internal/filter"
+	"github.com/AdguardTeam/AdGuardDNS/internal/geoip"
 	"github.com/AdguardTeam/AdGuardDNS/internal/profiledb"
+	"github.com/AdguardTeam/AdGuardDNS/verifh/hlib"
 	"github.com/AdguardTeam/golibs/logutil/slogutil"
 	"github.com/AdguardTeam/golibs/netutil"
 	"github.com/c2h5oh/datasize"
@@ -48,6 +55,9 @@ type pipeServer struct {
 	lastSince int
 	served    *resp
 	calls     int
+	offGrid   bool
+	// junk > 0: a profile the converter must reject is sent first.
+	junk int
 }
 
 func ipBytes(a netip.Addr) []byte {
@@ -107,8 +117,207 @@ func (p profRec) wire(devs map[int]*devRec) *backendpb.DNSProfile {
 	for _, d := range p.devs {
 		out.Devices = append(out.Devices, devs[d].wire())
 	}
+	p.wireSettings(out)
 
 	return out
+}
+
+// settingsBits spreads the tag of a profile version over 32 bits; every
+// setting group of the wire profile is chosen by some of them.
+func settingsBits(tag int) uint32 { return uint32(tag) * 2654435761 }
+
+var (
+	pipeDayRanges = [4][2]int{{0, 1439}, {1439, 1439}, {60, 600}, {0, 0}}
+	pipeTZ        = [2]string{"UTC", "Europe/Brussels"}
+	pipeNet4      = netip.MustParsePrefix("192.0.2.0/24")
+	pipeNet6      = netip.MustParsePrefix("2001:db8::/32")
+	pipeNetRL     = netip.MustParsePrefix("198.51.100.0/24")
+	pipeIP4       = netip.MustParseAddr("203.0.113.1")
+	pipeIP6       = netip.MustParseAddr("2001:db8::53")
+)
+
+func wireCIDR(p netip.Prefix) *backendpb.CidrRange {
+	return &backendpb.CidrRange{Address: p.Addr().AsSlice(), Prefix: uint32(p.Bits())}
+}
+
+// wireSettings fills in every setting group of the wire profile (absent,
+// disabled, enabled with boundary values) as a function of the profile's tag.
+func (p profRec) wireSettings(out *backendpb.DNSProfile) {
+	u := settingsBits(p.tag)
+	if u&1 != 0 {
+		out.SafeBrowsing = &backendpb.SafeBrowsingSettings{Enabled: u&2 != 0, BlockDangerousDomains: u&4 != 0, BlockNrd: u&8 != 0}
+	}
+	if u&16 != 0 {
+		par := &backendpb.ParentalSettings{Enabled: u&32 != 0, BlockAdult: u&64 != 0, GeneralSafeSearch: u&128 != 0, YoutubeSafeSearch: u&256 != 0}
+		if u&512 != 0 {
+			par.BlockedServices = append(par.BlockedServices, "svc1")
+			if u&1024 != 0 {
+				par.BlockedServices = append(par.BlockedServices, "svc2")
+			}
+		}
+		if u&2048 != 0 {
+			w := &backendpb.WeeklyRange{}
+			for wd := time.Sunday; wd <= time.Saturday; wd++ {
+				if (u>>(13+uint(wd)))&1 == 0 {
+					continue
+				}
+				rg := pipeDayRanges[(int(u>>20)+int(wd))&3]
+				dr := &backendpb.DayRange{Start: durationpb.New(time.Duration(rg[0]) * time.Minute), End: durationpb.New(time.Duration(rg[1]) * time.Minute)}
+				switch wd {
+				case time.Sunday:
+					w.Sun = dr
+				case time.Monday:
+					w.Mon = dr
+				case time.Tuesday:
+					w.Tue = dr
+				case time.Wednesday:
+					w.Wed = dr
+				case time.Thursday:
+					w.Thu = dr
+				case time.Friday:
+					w.Fri = dr
+				default:
+					w.Sat = dr
+				}
+			}
+			par.Schedule = &backendpb.ScheduleSettings{Tmz: pipeTZ[(u>>12)&1], WeeklyRange: w}
+		}
+		out.Parental = par
+	}
+	if (u>>22)&1 != 0 {
+		rl := &backendpb.RuleListsSettings{Enabled: (u>>23)&1 != 0, Ids: []string{"adguard_dns_filter"}}
+		if (u>>24)&1 != 0 {
+			rl.Ids = append(rl.Ids, "list2")
+		}
+		out.RuleLists = rl
+	}
+	switch (u >> 25) & 3 {
+	case 1:
+		out.Access = &backendpb.AccessSettings{Enabled: false, AllowlistAsn: []uint32{1}, BlocklistDomainRules: []string{"off.test"}}
+	case 2:
+		out.Access = &backendpb.AccessSettings{Enabled: true, AllowlistCidr: []*backendpb.CidrRange{wireCIDR(pipeNet4)}, AllowlistAsn: []uint32{10}, BlocklistAsn: []uint32{20, 30}, BlocklistDomainRules: []string{"block.test"}}
+	case 3:
+		out.Access = &backendpb.AccessSettings{Enabled: true, AllowlistCidr: []*backendpb.CidrRange{wireCIDR(pipeNet4)}, BlocklistCidr: []*backendpb.CidrRange{wireCIDR(pipeNet6)}, BlocklistAsn: []uint32{4294967295}}
+	}
+	switch (u >> 27) & 3 {
+	case 1:
+		out.RateLimit = &backendpb.RateLimitSettings{Enabled: false, Rps: 5, ClientCidr: []*backendpb.CidrRange{wireCIDR(pipeNetRL)}}
+	case 2:
+		out.RateLimit = &backendpb.RateLimitSettings{Enabled: true, Rps: 100, ClientCidr: []*backendpb.CidrRange{wireCIDR(pipeNetRL)}}
+	case 3:
+		out.RateLimit = &backendpb.RateLimitSettings{Enabled: true, Rps: 65537}
+	}
+	switch (u >> 29) & 7 {
+	case 1:
+		out.BlockingMode = &backendpb.DNSProfile_BlockingModeNullIp{BlockingModeNullIp: &backendpb.BlockingModeNullIP{}}
+	case 2:
+		out.BlockingMode = &backendpb.DNSProfile_BlockingModeNxdomain{BlockingModeNxdomain: &backendpb.BlockingModeNXDOMAIN{}}
+	case 3:
+		out.BlockingMode = &backendpb.DNSProfile_BlockingModeRefused{BlockingModeRefused: &backendpb.BlockingModeREFUSED{}}
+	case 4:
+		out.BlockingMode = &backendpb.DNSProfile_BlockingModeCustomIp{BlockingModeCustomIp: &backendpb.BlockingModeCustomIP{Ipv4: ipBytes(pipeIP4)}}
+	case 5:
+		out.BlockingMode = &backendpb.DNSProfile_BlockingModeCustomIp{BlockingModeCustomIp: &backendpb.BlockingModeCustomIP{Ipv6: ipBytes(pipeIP6)}}
+	case 6:
+		out.BlockingMode = &backendpb.DNSProfile_BlockingModeCustomIp{BlockingModeCustomIp: &backendpb.BlockingModeCustomIP{Ipv4: ipBytes(pipeIP4), Ipv6: ipBytes(pipeIP6)}}
+	}
+	switch p.tag % 4 {
+	case 1:
+		out.CustomRules = []string{"||a.example^"}
+	case 2:
+		out.CustomRules = []string{"||a.example^", "@@||b.example^"}
+	}
+}
+
+// expected is the profile this server must hold for the backend's record p:
+// written down from the documented meaning of the wire settings, without the
+// converter (absent or disabled access / rate-limit settings mean the global
+// ones, an absent blocking mode means null IP, the end of a day range is
+// inclusive on the wire and exclusive inside, custom filtering is on exactly
+// when there are rules).
+func (p profRec) expected() *agd.Profile {
+	u := settingsBits(p.tag)
+	out := profRec{id: p.id, devs: p.devs, auto: p.auto, deleted: p.deleted, tag: p.tag}.real()
+	out.FilteringEnabled, out.QueryLogEnabled, out.IPLogEnabled = p.tag&1 != 0, p.tag&2 != 0, p.tag&4 != 0
+	out.BlockPrivateRelay, out.BlockFirefoxCanary, out.BlockChromePrefetch = p.tag&8 != 0, p.tag&16 != 0, p.tag&32 != 0
+	fc := out.FilterConfig
+	fc.Custom.ID = string(pidStr(p.id))
+	if u&1 != 0 {
+		fc.SafeBrowsing = &filter.ConfigSafeBrowsing{Enabled: u&2 != 0, DangerousDomainsEnabled: u&4 != 0, NewlyRegisteredDomainsEnabled: u&8 != 0}
+	}
+	if u&16 != 0 {
+		par := &filter.ConfigParental{Enabled: u&32 != 0, AdultBlockingEnabled: u&64 != 0, SafeSearchGeneralEnabled: u&128 != 0, SafeSearchYouTubeEnabled: u&256 != 0}
+		if u&512 != 0 {
+			par.BlockedServices = []filter.BlockedServiceID{"svc1"}
+			if u&1024 != 0 {
+				par.BlockedServices = []filter.BlockedServiceID{"svc1", "svc2"}
+			}
+		}
+		if u&2048 != 0 {
+			loc, err := agdtime.LoadLocation(pipeTZ[(u>>12)&1])
+			hlib.Must(err)
+			week := &filter.WeeklySchedule{}
+			for wd := 0; wd < 7; wd++ {
+				if (u>>(13+uint(wd)))&1 != 0 {
+					rg := pipeDayRanges[(int(u>>20)+wd)&3]
+					week[wd] = &filter.DayInterval{Start: uint16(rg[0]), End: uint16(rg[1] + 1)}
+				}
+			}
+			par.PauseSchedule = &filter.ConfigSchedule{Week: week, TimeZone: loc}
+		}
+		fc.Parental = par
+	}
+	if (u>>22)&1 != 0 {
+		fc.RuleList = &filter.ConfigRuleList{Enabled: (u>>23)&1 != 0, IDs: []filter.ID{"adguard_dns_filter"}}
+		if (u>>24)&1 != 0 {
+			fc.RuleList.IDs = []filter.ID{"adguard_dns_filter", "list2"}
+		}
+	}
+	switch (u >> 25) & 3 {
+	case 2:
+		out.Access = access.NewDefaultProfile(&access.ProfileConfig{AllowedNets: []netip.Prefix{pipeNet4}, AllowedASN: []geoip.ASN{10}, BlockedASN: []geoip.ASN{20, 30}, BlocklistDomainRules: []string{"block.test"}})
+	case 3:
+		out.Access = access.NewDefaultProfile(&access.ProfileConfig{AllowedNets: []netip.Prefix{pipeNet4}, BlockedNets: []netip.Prefix{pipeNet6}, BlockedASN: []geoip.ASN{4294967295}})
+	}
+	switch (u >> 27) & 3 {
+	case 2:
+		out.Ratelimiter = agd.NewDefaultRatelimiter(&agd.RatelimitConfig{ClientSubnets: []netip.Prefix{pipeNetRL}, RPS: 100, Enabled: true}, respSzEst)
+	case 3:
+		out.Ratelimiter = agd.NewDefaultRatelimiter(&agd.RatelimitConfig{RPS: 65537, Enabled: true}, respSzEst)
+	}
+	switch (u >> 29) & 7 {
+	case 2:
+		out.BlockingMode = &dnsmsg.BlockingModeNXDOMAIN{}
+	case 3:
+		out.BlockingMode = &dnsmsg.BlockingModeREFUSED{}
+	case 4:
+		out.BlockingMode = &dnsmsg.BlockingModeCustomIP{IPv4: []netip.Addr{pipeIP4}}
+	case 5:
+		out.BlockingMode = &dnsmsg.BlockingModeCustomIP{IPv6: []netip.Addr{pipeIP6}}
+	case 6:
+		out.BlockingMode = &dnsmsg.BlockingModeCustomIP{IPv4: []netip.Addr{pipeIP4}, IPv6: []netip.Addr{pipeIP6}}
+	}
+	switch p.tag % 4 {
+	case 1:
+		fc.Custom.Rules, fc.Custom.Enabled = []filter.RuleText{"||a.example^"}, true
+	case 2:
+		fc.Custom.Rules, fc.Custom.Enabled = []filter.RuleText{"||a.example^", "@@||b.example^"}, true
+	}
+
+	return out
+}
+
+// canonSettings renders every setting of a profile except the time the custom
+// rules were received (the converter stamps it with the wall clock).
+func canonSettings(p *agd.Profile) string {
+	c := *p
+	fc := *p.FilterConfig
+	cu := *fc.Custom
+	cu.UpdateTime = time.Time{}
+	fc.Custom = &cu
+	c.FilterConfig = &fc
+
+	return canonProfile(&c)
 }
 
 func (s *pipeServer) GetDNSProfiles(
@@ -117,19 +326,145 @@ func (s *pipeServer) GetDNSProfiles(
 ) (err error) {
 	s.calls++
 	s.lastSince = timeNum(req.SyncTime.AsTime())
+	if since := req.SyncTime.AsTime(); !onGrid(since) && !since.Equal(time.Time{}) {
+		s.offGrid = true
+	}
 	if s.fail {
 		return status.Error(codes.Unavailable, "verif: scripted backend failure")
 	}
 	rs := s.pb.respond(s.lastSince)
 	s.served = &rs
+	if s.junk > 0 {
+		if err = srv.Send(junkProfile(s.junk)); err != nil {
+			return err
+		}
+	}
 	for _, p := range rs.profs {
 		if err = srv.Send(p.wire(s.pb.b.devs)); err != nil {
 			return err
 		}
 	}
-	srv.SetTrailer(metadata.Pairs("sync_time", strconv.FormatInt((timeBase+int64(rs.t))*1000, 10)))
+	srv.SetTrailer(metadata.Pairs("sync_time", strconv.FormatInt(timeOf(rs.t).UnixMilli(), 10)))
 
 	return nil
+}
+
+// recStorage records the last response of the real backendpb storage.
+type recStorage struct {
+	inner profiledb.Storage
+	last  *profiledb.StorageProfilesResponse
+}
+
+func (r *recStorage) CreateAutoDevice(
+	ctx context.Context,
+	req *profiledb.StorageCreateAutoDeviceRequest,
+) (*profiledb.StorageCreateAutoDeviceResponse, error) {
+	return r.inner.CreateAutoDevice(ctx, req)
+}
+
+func (r *recStorage) Profiles(
+	ctx context.Context,
+	req *profiledb.StorageProfilesRequest,
+) (resp *profiledb.StorageProfilesResponse, err error) {
+	resp, err = r.inner.Profiles(ctx, req)
+	r.last = resp
+
+	return resp, err
+}
+
+// junkProfile is a wire profile the converter must reject as a whole (custom
+// blocking mode without addresses), together with its perfectly valid device,
+// which claims keys of the pools.
+func junkProfile(n int) *backendpb.DNSProfile {
+	return &backendpb.DNSProfile{
+		DnsId:        "p9",
+		BlockingMode: &backendpb.DNSProfile_BlockingModeCustomIp{BlockingModeCustomIp: &backendpb.BlockingModeCustomIP{}},
+		Devices:      []*backendpb.DeviceSettings{junkDevice(n).wire()},
+	}
+}
+
+func junkDevice(n int) devRec {
+	return devRec{id: 9, linked: 1 + n%nIP, ded: []int{1 + (n+1)%nIP}, human: 1, tag: 3 * n}
+}
+
+// wireLine is the model's `wire` line for a served response (and the junk
+// profile, if one was sent first).
+func wireLine(rs *resp, junk int) string {
+	byID := map[int]devRec{}
+	for _, d := range rs.devs {
+		byID[d.id] = d
+	}
+	var sb strings.Builder
+	n := len(rs.profs)
+	if junk > 0 {
+		n++
+	}
+	fmt.Fprintf(&sb, "wire %d", n)
+	dev := func(d devRec, valid bool) {
+		fmt.Fprintf(&sb, " %d %d %d %d %s %d", d.id, d.linked, d.human, d.tag, b01(valid), len(d.ded))
+		for _, ip := range d.ded {
+			fmt.Fprintf(&sb, " %d", ip)
+		}
+	}
+	if junk > 0 {
+		sb.WriteString(" 9 0 0 0 0 1")
+		dev(junkDevice(junk), true)
+	}
+	for _, p := range rs.profs {
+		fmt.Fprintf(&sb, " %d %s %s %d 1 %d", p.id, b01(p.auto), b01(p.deleted), p.tag, len(p.devs))
+		for _, d := range p.devs {
+			dev(byID[d], !byID[d].bad)
+		}
+	}
+
+	return sb.String()
+}
+
+// respText renders what backendpb made of the stream, in the format of the
+// model's answer to `wire`.
+func respText(r *profiledb.StorageProfilesResponse) string {
+	linked, ded := map[netip.Addr]int{}, map[netip.Addr]int{}
+	for i := 0; i <= nIP; i++ {
+		linked[linkedAddr(i)] = i
+		if i > 0 {
+			ded[dedAddr(i)] = i
+		}
+	}
+	num := func(s, prefix string) int {
+		n, err := strconv.Atoi(strings.TrimPrefix(s, prefix))
+		if err != nil {
+			return -1
+		}
+
+		return n
+	}
+	parts := []string{fmt.Sprint(len(r.Profiles)), fmt.Sprint(len(r.Devices))}
+	for _, p := range r.Profiles {
+		parts = append(parts, fmt.Sprint(num(string(p.ID), "p")), b01(p.AutoDevicesEnabled), b01(p.Deleted), fmt.Sprint(int(p.FilteredResponseTTL)), fmt.Sprint(len(p.DeviceIDs)))
+		for _, id := range p.DeviceIDs {
+			parts = append(parts, fmt.Sprint(num(string(id), "d")))
+		}
+	}
+	for _, d := range r.Devices {
+		l, ok := linked[d.LinkedIP]
+		if !ok {
+			l = -1
+		}
+		h := 0
+		if d.HumanIDLower != "" {
+			h = num(string(d.HumanIDLower), "h")
+		}
+		parts = append(parts, fmt.Sprint(num(string(d.ID), "d")), fmt.Sprint(l), fmt.Sprint(h), fmt.Sprint(num(string(d.Name), "n")), fmt.Sprint(len(d.DedicatedIPs)))
+		for _, ip := range d.DedicatedIPs {
+			n, ok := ded[ip]
+			if !ok {
+				n = -1
+			}
+			parts = append(parts, fmt.Sprint(n))
+		}
+	}
+
+	return strings.Join(parts, " ")
 }
 
 // pipeReference is the backend's current state as this server must see it:
@@ -191,7 +526,8 @@ func (h *harness) pipelineCampaign() {
 	if h.o.Thorough() {
 		n = 2500
 	}
-	path := filepath.Join(h.dir, "pipeline.pb")
+	path := filepath.Join(h.dir, "pipeline", "cache.pb")
+	hlib.Must(os.MkdirAll(filepath.Dir(path), 0o700))
 	defer func() { timeBase = 1700000000 }()
 	for i := 0; i < n; i++ {
 		timeBase = 1700000000
@@ -207,7 +543,7 @@ func (h *harness) runPipelineCase(rng *rand.Rand, srv *pipeServer, ps *backendpb
 	ctx := context.Background()
 	_ = os.Remove(path)
 	pb := newPBackend()
-	srv.pb, srv.fail = pb, false
+	srv.pb, srv.fail, srv.offGrid = pb, false, false
 	var log []string
 	reported := map[string]bool{}
 	violate := func(sig, what string) {
@@ -220,10 +556,13 @@ func (h *harness) runPipelineCase(rng *rand.Rand, srv *pipeServer, ps *backendpb
 	}
 	var ec *errColl
 	var mt *syncMetrics
+	rec := &recStorage{inner: ps}
+	// Lines for the model of the backendpb converters and what the real ones did.
+	var mlines, mwant []string
 	open := func() *realDB {
 		ec, mt = &errColl{}, &syncMetrics{}
 		db, err := profiledb.New(&profiledb.Config{
-			Logger: slogutil.NewDiscardLogger(), Storage: ps, ErrColl: ec, Metrics: mt, CacheFilePath: path,
+			Logger: slogutil.NewDiscardLogger(), Storage: rec, ErrColl: ec, Metrics: mt, CacheFilePath: path,
 			FullSyncIvl: time.Hour, FullSyncRetryIvl: time.Hour, ResponseSizeEstimate: respSzEst,
 		})
 		if err != nil {
@@ -251,6 +590,9 @@ func (h *harness) runPipelineCase(rng *rand.Rand, srv *pipeServer, ps *backendpb
 			// Settings as converted by backendpb, independently re-derived
 			// from the backend's records.
 			p, d := ref.profs[own[0].pid], ref.devs[own[0].did]
+			if a, b := canonSettings(p.expected()), canonSettings(res.p); a != b {
+				violate("profile-setting-lost", fmt.Sprintf("%s: the settings of profile %s differ from what the backend sent (tag %d):\n expected %s\n found    %s", o.line(), res.pid, p.tag, a, b))
+			}
 			if res.p.FilteringEnabled != (p.tag&1 != 0) || res.p.QueryLogEnabled != (p.tag&2 != 0) || res.p.IPLogEnabled != (p.tag&4 != 0) ||
 				res.p.BlockPrivateRelay != (p.tag&8 != 0) || res.p.BlockFirefoxCanary != (p.tag&16 != 0) || res.p.BlockChromePrefetch != (p.tag&32 != 0) {
 				violate("profile-setting-lost", fmt.Sprintf("%s: the flags of profile %s differ from what the backend sent (tag %d)", o.line(), res.pid, p.tag))
@@ -260,6 +602,26 @@ func (h *harness) runPipelineCase(rng *rand.Rand, srv *pipeServer, ps *backendpb
 					if res.d.DedicatedIPs[k] != dedAddr(ip) {
 						violate("device-setting-lost", fmt.Sprintf("%s: dedicated IPs of %s differ", o.line(), res.did))
 					}
+				}
+			}
+			if len(mlines) < 400 {
+				u := settingsBits(p.tag)
+				rlT, acT := "default", "default"
+				if _, ok := res.p.Ratelimiter.(agd.GlobalRatelimiter); ok {
+					rlT = "global"
+				}
+				if _, ok := res.p.Access.(access.EmptyProfile); ok {
+					acT = "empty"
+				}
+				mlines = append(mlines, fmt.Sprintf("bprate %d", min((u>>27)&3, 2)), fmt.Sprintf("bpaccess %d", min((u>>25)&3, 2)))
+				mwant = append(mwant, rlT+" "+rlT, acT)
+				if res.d.Auth != nil && (d.tag%3 != 2 || byte(d.tag) != 0) {
+					pw := 0
+					if d.tag%3 == 2 {
+						pw = int(byte(d.tag))
+					}
+					mlines = append(mlines, fmt.Sprintf("bpauth %d %s %d", min(d.tag%3, 1), b01(d.tag&2 != 0), pw))
+					mwant = append(mwant, authModelText(res.d.Auth))
 				}
 			}
 			a := res.d.Auth
@@ -308,14 +670,41 @@ func (h *harness) runPipelineCase(rng *rand.Rand, srv *pipeServer, ps *backendpb
 			full := !synced || rng.IntN(5) == 0
 			auto := afterRestart && rng.IntN(4) != 0
 			failing := synced && rng.IntN(6) == 0
-			srv.fail, srv.served = failing, nil
+			srv.fail, srv.served, rec.last, srv.junk = failing, nil, nil, 0
+			if rng.IntN(4) == 0 {
+				srv.junk = 1 + rng.IntN(6)
+			}
 			if !auto {
 				x.db.VerifC14ForceSyncKind(full)
 			}
-			err := x.db.Refresh(ctx)
+			nostore := !failing && rng.IntN(6) == 0
+			var err error
+			if nostore {
+				withoutCacheDir(path, func() { err = x.db.Refresh(ctx) })
+			} else {
+				err = x.db.Refresh(ctx)
+			}
 			srv.fail = false
 			kind := mt.lastFull
+			if srv.served != nil && rec.last != nil && !failing {
+				mlines = append(mlines, wireLine(srv.served, srv.junk))
+				mwant = append(mwant, respText(rec.last))
+				if srv.junk > 0 {
+					r.Count("pipeline:rejected-profile-in-stream")
+				}
+			}
 			switch {
+			case nostore && kind && srv.served != nil:
+				// The data was applied, the cache file keeps its old content.
+				injected++
+				srv.served.full = true
+				log = append(log, fmt.Sprintf("%s (asked since %d)", srv.served.lineNS(), srv.lastSince))
+				if !isStoreError(err) {
+					violate("refresh-swallows-store-error", fmt.Sprintf("Refresh returned %v although the cache could not be stored", err))
+				}
+				ref = pipeReference(pb)
+				r.Count("pipeline:sync-full-store-failed")
+				synced, afterRestart = true, false
 			case failing:
 				injected++
 				log = append(log, fmt.Sprintf("fail %s (asked since %d)", b01(kind), srv.lastSince))
@@ -364,6 +753,18 @@ func (h *harness) runPipelineCase(rng *rand.Rand, srv *pipeServer, ps *backendpb
 	lookAll()
 	if len(ec.errs) != injected {
 		violate("refresh-error", fmt.Sprintf("error collector received %d errors, %d backend failures were injected: %v", len(ec.errs), injected, ec.errs))
+	}
+	if srv.offGrid {
+		violate("request-sync-point-never-sent", "the backend was asked for the changes since a time it never sent as sync_time (the sync time was altered on the way)")
+	}
+	ans := h.m.Batch(mlines)
+	r.ModelOps += len(mlines)
+	for k := range mlines {
+		if ans[k] != mwant[k] {
+			r.Disagree("model-vs-backendpb", fmt.Sprintf("%q: model %q, implementation %q", mlines[k], ans[k], mwant[k]), map[string]any{"campaign": "pipeline", "line": mlines[k]})
+
+			break
+		}
 	}
 	r.Traces++
 	r.Case("pipeline\n"+fmt.Sprint(log), true)
